@@ -82,6 +82,10 @@ pub fn node_addr(idx: usize, ipv6: bool) -> SocketAddr {
 pub enum WOp {
     /// Write `n` stream bytes in chunks of at most `chunk` bytes per poll_write call.
     Write { n: u64, chunk: usize },
+    /// Like Write, but a write call that stays blocked for `ms` is abandoned (its future is
+    /// dropped, as by a timeout or select!) and the half is polled again from a different task
+    /// context (a fresh waker; the abandoned one is dead and ignores wake-ups).
+    WriteImpatient { n: u64, chunk: usize, ms: u64 },
     Flush,
     Shutdown,
     Sleep(u64),
